@@ -23,10 +23,10 @@ import vlib
 
 PART = "poollife"
 UNIVERSES = ("U1", "U1b", "U2", "U3")
-DEVIATIONS = ("NoPolicyRecheck", "StaleHeight", "NoAttrRecheck", "NoWitnessRecheck", "NoFpbFilter")
-ASIS = ("asis_U1", "asis_U2")       # the code as it is (no exact fee re-check): refuted while the fee grounds are open
+# NoFeeRecheck / NoFeeRecheckAttr = the code before c8f704d (FeeRecheck = "asis") in U1 (fee per byte, execution fee factor)
+# and U2 (attribute fee); NoFpbFilter is checked together with "asis" (since c8f704d the pool's own filter is redundant)
+DEVIATIONS = ("NoPolicyRecheck", "StaleHeight", "NoAttrRecheck", "NoWitnessRecheck", "NoFeeRecheck", "NoFeeRecheckAttr", "NoFpbFilter")
 SIMS = ("U1", "U2", "U3")
-FEE_GROUNDS = {"fee-per-byte", "fee-per-byte-ratchet", "fee-per-byte-filter", "exec-fee", "attribute-fee"}
 SUB = "poollife"
 
 
@@ -45,18 +45,6 @@ def run_ext(ctx):
             if "ProposableInv" not in (e.res or {}).get("out", ""):
                 raise vlib.Inconclusive("deviation %s: TLC failed for another reason than Proposable: %s" % (d, e))
             ctx.extra["poollife_model_selftests"] = ctx.extra.get("poollife_model_selftests", 0) + 1
-    # the code as it is, at model level (informational: the real code decides)
-    asis_refuted = []
-    for a in ASIS:
-        st, tr = ctx.states, ctx.transitions
-        try:
-            ctx.tlc_mc(SUB, "MCPoolLife.tla", "MC_%s.cfg" % a, timeout=600)
-        except vlib.ModelError as e:
-            if "ProposableInv" not in (e.res or {}).get("out", ""):
-                raise vlib.Inconclusive("as-is model %s: TLC failed for another reason than Proposable: %s" % (a, e))
-            asis_refuted.append(a)
-        ctx.states, ctx.transitions = st, tr
-    ctx.extra["poollife_asis_model_refuted"] = asis_refuted
     # 2. behaviours
     behaviours, seen = [], set()
     for i, u in enumerate(SIMS):
@@ -138,9 +126,6 @@ def run_ext(ctx):
                            "history": brief_history(events[s:li + 1])})
     ctx.extra["poollife_informational_failures"] = info
     ctx.extra["poollife_refused_by_ground"] = grounds_seen
-    if asis_refuted and not (set(grounds_seen) & FEE_GROUNDS):
-        ctx.spec_drift.append({"part": PART, "what": "the as-is Impl model is refuted on fee changes but the real code showed no fee ground: "
-                                                      "PoolLifeImpl (FeeRecheck = asis) no longer describes the code"})
     ctx.assumptions.append(
         "pool life: universes of 3-15 transactions (plain, cosigned, NotValidBefore, Conflicts, HighPriority by committee 1/2, oracle "
         "responses, NotaryAssisted, contract-based witness K as cosigner / sender) over 4 poor payers; one scenario operation per foreign "
